@@ -157,6 +157,28 @@ func (e *rtpEncoderEmpty) encode(_ unit.Payload) ([]*rtp.Packet, error) {
 	return nil, nil
 }
 
+// initializeLPCMEncoder initializes a rtplpcm.Encoder after checking that
+// a sample of all channels fits into a RTP packet.
+// rtplpcm.Encoder divides by zero otherwise.
+func initializeLPCMEncoder(e *rtplpcm.Encoder) error {
+	sampleSize := e.BitDepth * e.ChannelCount / 8
+	if sampleSize <= 0 {
+		return fmt.Errorf("invalid bit depth (%d) or channel count (%d)", e.BitDepth, e.ChannelCount)
+	}
+
+	err := e.Init()
+	if err != nil {
+		return err
+	}
+
+	if sampleSize > e.PayloadMaxSize {
+		return fmt.Errorf("sample size (%d) is greater than maximum RTP payload size (%d)",
+			sampleSize, e.PayloadMaxSize)
+	}
+
+	return nil
+}
+
 func newRTPEncoder(
 	forma format.Format,
 	rtpMaxPayloadSize int,
@@ -358,7 +380,7 @@ func newRTPEncoder(
 			BitDepth:              8,
 			ChannelCount:          forma.ChannelCount,
 		}
-		err := wrapped.Init()
+		err := initializeLPCMEncoder(wrapped)
 		if err != nil {
 			return nil, err
 		}
@@ -374,7 +396,7 @@ func newRTPEncoder(
 			BitDepth:              forma.BitDepth,
 			ChannelCount:          forma.ChannelCount,
 		}
-		err := wrapped.Init()
+		err := initializeLPCMEncoder(wrapped)
 		if err != nil {
 			return nil, err
 		}
